@@ -69,6 +69,13 @@ CLAIMED["C15"] = (
     "DESIGN.md section 3, C15",
 )
 
+CLAIMED["C16"] = (
+    "PEG model extracted from the generated parser's grammar table (syntax tree of peg.go) + nullable/left-call analysis + branch-start error-discipline rule on go/ssa + source/table agreement",
+    "Structural facts decided on the grammar the parser actually interprets: the entry rule is anchored at both ends (optional whitespace, then `!.`), every terminal lies in the documented alphabet, there is no left recursion or nullable repetition, grouping is transparent and operators admit whitespace, the syntax error propagates as an error value, and the .peg source agrees with the table. These are necessary conditions of 'accepted iff the whole string is a sentence' that hold for every input string; language equality itself is declined.",
+    "The embedded pigeon runtime is trusted to implement PEG semantics. " + TRUST,
+    "DESIGN.md section 3, C16",
+)
+
 # properties without a check yet (or declined), with the reason
 NOT_APPLICABLE = {
 }
